@@ -80,6 +80,8 @@ func main() {
 		switch *scan {
 		case "nondet":
 			v = eng.scanNondet()
+		case "stdout":
+			v = eng.scanStdout()
 		case "fieldreads":
 			v = eng.scanFieldReads([]string{"gen_copy_from.go", "gen_copy_to.go", "gen_schema.go"}, []string{"Field", "Message", "TerraformType", "ProtobufType", "InjectedField"})
 		default:
